@@ -62,6 +62,12 @@ CheckOK(o) ==
      /\ Cases[o.ci].invalidsets # <<>> => o.failed              \* every top-level set variable must be well-formed, used or not
      /\ v = "no"   => /\ o.failed /\ Len(o.diags) >= 1
                       /\ \E i \in DOMAIN e : e[i].verdict = "no" /\ \E r \in Range(e[i].reasons) : ReasonShown(o, e[i], r)
+     /\ o.failed => Len(o.diags) >= 1                       \* never a silent failure
+     /\ (Cases[o.ci].fam = "F" /\ o.failed) => \E d \in Range(o.diags) : d.pos
+     \* C19: check fails for this package exactly when gen does (whatever the specification says about the program),
+     \* unless a provider-set variable that no injector uses is ill-formed
+     /\ (Cases[o.ci].invalidsets = <<>> /\ \E g \in Range(Obs) : g.ci = o.ci /\ g.cmd = "gen") =>
+           (o.failed <=> (CHOOSE g \in Range(Obs) : g.ci = o.ci /\ g.cmd = "gen").failed)
 
 \* show: the parsed listing equals what WireShow derives from the program
 GroupSet(gs) == {[inputs |-> Range(g.inputs), outputs |-> Range(g.outputs)] : g \in Range(gs)}
